@@ -315,6 +315,7 @@ type Scenario struct {
 	Events []Event `json:"events"` // all events in ingest order
 	Probe  bool    `json:"probe"`
 	ToCoq  bool    `json:"-"`
+	Timeout int    `json:"-"` // worker timeout in seconds (0 = default)
 	NoE2E  bool    `json:"-"` // no end-to-end comparison with the model (known loss outside the model)
 	// per op: index range of Events ingested by this op (ingest ops)
 	Range [][2]int `json:"-"`
@@ -465,7 +466,10 @@ func newCol(r *vhlib.Rng, path, kind string, nEvents, card int) colSpec {
 // main-stream scenario: columns of fixed kinds (no trigger of a known class by construction)
 func genMain(r *vhlib.Rng, name string, probe bool, big bool) *Scenario {
 	sc := &Scenario{Name: name, Stream: "main", Probe: probe, ToCoq: true, DupCols: map[string]bool{}, Expect: map[int][]uint64{}}
-	sc.Card = vhlib.Pick(r, []int{0, 1, 2, 3, 4, 5, 8, 3, 4})
+	// limits below 4 are left to the known stream: with them a bloom-indexed column that holds only
+	// nulls/bools is stored raw, writeNonDeBloom builds bloom.NewWithEstimates(0) (k = 2^63 hash
+	// functions) and a later convertColumnToStrings on that column never returns
+	sc.Card = vhlib.Pick(r, []int{0, 4, 5, 6, 8, 4, 5, 7})
 	nBlocks := 1 + r.Intn(4)
 	maxPer := 10
 	if !probe {
